@@ -215,6 +215,46 @@ class XExprEvaluator(ModelVisitor):
                     self.is_x = True
                     self.val = None
             
+    def visit_expr_indexed_fieldref(self, e):
+        # Evaluate the field that the path names
+        e.get_target().accept(self)
+        
+    def visit_expr_unary(self, e):
+        e.expr.accept(self)
+        if not self.is_x:
+            # Bit-wise not at the width of the operand
+            w = int(e.expr.width())
+            self.val = ValueScalar((~int(self.val)) & ((1 << w)-1))
+            
+    def visit_expr_partselect(self, e):
+        e.lhs.accept(self)
+        if not self.is_x:
+            upper = int(e.upper.val())
+            lower = int(e.lower.val()) if e.lower is not None else upper
+            self.val = ValueScalar(
+                (int(self.val) >> lower) & ((1 << (upper-lower+1))-1))
+            
+    def visit_composite_field(self, f):
+        # Not a value
+        self.is_x = True
+        self.val = None
+        
+    def visit_expr_cond(self, e):
+        self.is_x = True
+        self.val = None
+        
+    def visit_expr_dynamic(self, e):
+        self.is_x = True
+        self.val = None
+        
+    def visit_expr_array_sum(self, e):
+        self.is_x = True
+        self.val = None
+        
+    def visit_expr_array_product(self, e):
+        self.is_x = True
+        self.val = None
+            
     def visit_expr_in(self, e):
         e.lhs.accept(self)
         
